@@ -1,9 +1,11 @@
 #!/bin/sh
-# regenerate Gen/MockEdges.lean from the repaired worktree
+# regenerate my Gen files (MockEdges, MockForward, TrackMateTables) from the repaired worktree
 cd /verif && /venv/bin/python -c "
 import sys; sys.path.insert(0,'/verif')
 from pathlib import Path
-from harness.translators import t9_mock_edges as t
+from harness.translators import t9_mock_edges as t, t8b_trackmate_tables as u
 r=t.run(Path('${1:-/tmp/wt-tm}'), Path('/verif/lean/Gen'))
 print('T9', r['ok'], r.get('error',''))
+r=u.run(Path('${1:-/tmp/wt-tm}'), Path('/verif/lean/Gen'))
+print('T8b', r['ok'], r.get('error',''))
 "
